@@ -742,13 +742,26 @@ def dupOwner (s : Schema) (c : TagCtx) (t : Sec) (k : HKey) : Option IE :=
     | none => none)
   | _ => (visible s t).find? (fun ie => probeOf t ie.2 = k)
 
+/-- the code choice of `check_duplicate_names`: `values = set(entry.has_attribute(inLibrary) for …)`,
+`SCHEMA_DUPLICATE_FROM_LIBRARY` iff `len(values) == 2`, i.e. iff both booleans occur -/
+def dupCode (flags : List Bool) : IK :=
+  if flags.any id && flags.any (!·) then IK.duplicateFromLibrary else IK.duplicateNode
+
+/-- `duplicate_names[key]`: the entry registered under the key, then every later entry that hit it -/
+def dupMembers (s : Schema) (c : TagCtx) (t : Sec) (k : HKey) : List IE :=
+  (dupOwner s c t k).toList ++ ((dupPairs s t).filter (·.1 = k)).map (·.2)
+
+/-- is the entry a library entry, as `check_duplicate_names` sees it: `entry.has_attribute(inLibrary)`
+(a boolean; for tags the inherited view) -/
+def inLib (c : TagCtx) (t : Sec) (ie : IE) : Bool := hasOf c t ie Key.InLibrary
+
+/-- the issue kind reported for a duplicated key -/
+def dupCodeOf (s : Schema) (c : TagCtx) (t : Sec) (k : HKey) : IK :=
+  dupCode ((dupMembers s c t k).map (inLib c t))
+
 /-- `check_duplicate_names` for one section: one issue per duplicated key -/
 def dupKinds (s : Schema) (c : TagCtx) (t : Sec) : List IK :=
-  let d := dupPairs s t
-  (dedupKeys (d.map (·.1))).map fun k =>
-    let members := (dupOwner s c t k).toList ++ (d.filter (·.1 = k)).map (·.2)
-    let flags := members.map (fun ie => hasOf c t ie Key.InLibrary)
-    if flags.any id && flags.any (!·) then IK.duplicateFromLibrary else IK.duplicateNode
+  (dedupKeys ((dupPairs s t).map (·.1))).map (dupCodeOf s c t)
 
 def dupIssues (s : Schema) (c : TagCtx) (w : Bool) : List Issue :=
   secOrder.flatMap fun t => filterW w ((dupKinds s c t).map fun k => ⟨k, k.sev, [], [], []⟩)
@@ -953,6 +966,23 @@ def seed (f : Fault) (s : Schema) : Schema :=
   | .allowedCharacter t i x => s.modify t i (appendVal Key.AllowedCharacter x)
   | .inLibrary t i l => s.modify t i (withAttr Key.InLibrary (.text l))
   | .hedId t i v => s.modify t i (withAttr Key.HedID (.text v))
+
+/-- one more entry at the end of section `t`: a new node / unit / class / … definition anywhere in the document
+(for a tag the long name says below which node it is placed) -/
+def Schema.append (s : Schema) (t : Sec) (e : Entry) : Schema :=
+  { s with sec := fun t' => if t' = t then s.sec t ++ [e] else s.sec t' }
+
+/-- long name of a new node called `x` placed below the node with long name `p` (`none`: at top level) -/
+def childName (parent : Option Str) (x : Str) : Str :=
+  match parent with
+  | none => x
+  | some p => p ++ '/' :: x
+
+/-- the new entry repeats a name that is already registered in its section (and is not the
+"extend an existing unit class" form): it is a duplicate name -/
+def dupAdmissible (s : Schema) (t : Sec) (e : Entry) : Bool :=
+  (keysG (regOf t) (probeOf t) ∅ (s.sec t)).contains (probeOf t e) &&
+  !(t = .unitClasses && isClassExtension e)
 
 /-- entry `i` of section `t` is kept in `all_names` (it is not a duplicate of an earlier entry) -/
 def visibleAt (s : Schema) (t : Sec) (i : Nat) : Bool :=
